@@ -17,6 +17,8 @@ DOC = {
     'numpy.random.shuffle': 'np.random.shuffle(x): in-place application of an ARBITRARY permutation (havoc)',
     'numpy.random.randint': 'np.random.randint(lo,hi,size=m): ANY integer array of length m with lo <= entries < hi (havoc)',
     'numpy.array': 'np.array(list): same elements',
+    'numpy.unique(return_index, return_inverse)': 'distinct values u, position of the first occurrence of each, and for every entry the k with u[k] == entry',
+    'ndarray.argsort': 'x.argsort() is a permutation of range(len(x)) along which x is non-decreasing',
     'numpy.array(dtype=float)': 'np.array / np.asarray(x, dtype=float): same values (entries are mathematical reals here; rounding of the '
                                 'conversion is not modelled)',
     'os.path.join': 'os.path.join of relative separator-free segments = segments joined by /',
@@ -39,7 +41,54 @@ DOC = {
 def install(E):
     L = E.lib
 
+    def np_unique_full(E, x):
+        """np.unique(x, return_index=True, return_inverse=True) for a 1-D sequence x of hashable scalars -> (u, first, inverse):
+        u[k] the distinct values (their ORDER is not used: only that they are distinct), first[k] the position of the first
+        occurrence of u[k] in x, inverse[i] the k with u[k] == x[i].  Facts are instantiated when an element is read."""
+        E.used_lib.add('numpy.unique(return_index, return_inverse)')
+        xs = E.as_seq(x)
+        xt = E.toV(x)
+        n = E.as_int(E.seq_len(xs))
+        m = ufunc('nunique', 1, 'int')(xt)
+        E.fact(z3.And(m >= 0, m <= n, z3.Implies(n > 0, m > 0)))
+        el = ufunc('uniq_elem', 2)
+        ix = ufunc('uniq_idx', 2, 'int')
+        fi = ufunc('uniq_first', 2, 'int')
+
+        def xat(i):
+            return E.toV(E.seq_elem(xs, i))
+
+        def u_elem(k):
+            z = el(xt, boxI_(k))
+            f = fi(xt, boxI_(k))
+            E.fact(z3.Implies(z3.And(k >= 0, k < m), z3.And(ix(xt, z) == k, f >= 0, f < n, xat(f) == z, ix(xt, xat(f)) == k)))
+            return SV(z, 'val', tag='scalar')
+
+        def first_elem(k):
+            u_elem(k)
+            return SV(fi(xt, boxI_(k)), 'int')
+
+        def inv_elem(i):
+            k = ix(xt, xat(i))
+            E.fact(z3.Implies(z3.And(i >= 0, i < n), z3.And(k >= 0, k < m, el(xt, boxI_(k)) == xat(i), fi(xt, boxI_(k)) <= i)))
+            return SV(k, 'int')
+        # first occurrence: no earlier position holds the value (one quantified axiom per array)
+        i, k = z3.Int(fresh_name('ui')), z3.Int(fresh_name('uk'))
+        E.fact(z3.ForAll([i, k], z3.Implies(z3.And(k >= 0, k < m, i >= 0, i < fi(xt, boxI_(k))), xat(i) != el(xt, boxI_(k)))))
+        u = SeqV(length=m, elem=u_elem, kind='array', esort='val')
+        first = SeqV(length=m, elem=first_elem, kind='array', esort='int')
+        first.distinct_because = 'first occurrences of distinct values'
+        inverse = SeqV(length=n, elem=inv_elem, kind='array', esort='int')
+        return (u, first, inverse)
+
     def np_unique(E, x, **kw):
+        if set(kw) in ({'return_index', 'return_inverse'}, {'return_index'}) and all(v is True for v in kw.values()) \
+                and not isinstance(x, (Obj, DictV)):
+            try:
+                full = np_unique_full(E, x)
+                return full if 'return_inverse' in kw else full[:2]
+            except Undecided:
+                pass
         if kw:
             return E.app('numpy.unique', [x, DictV(kw)])
         if isinstance(x, SeqV) and x.canon:
@@ -418,6 +467,34 @@ def install(E):
 
     def np_len_like(E, x):
         return E.seq_len(x)
+
+    def nd_argsort(E, x, *a, **kw):
+        """x.argsort() of a 1-D integer sequence: a permutation P of range(len(x)) (P and its inverse as functions, facts on
+        demand) with x[P(a)] <= x[P(b)] for a < b (one quantified axiom)"""
+        if a or kw or not isinstance(x, SeqV) or x.kind != 'array' or x.esort != 'int':
+            return E.app('ndarray.argsort', [x] + list(a) + ([DictV(kw)] if kw else []), tag='ndarray')
+        E.used_lib.add('ndarray.argsort')
+        m = x.zlen()
+        xt = z3.Const(fresh_name('argsorted'), V)
+        P = ufunc('argsort_perm', 2, 'int')
+        Q = ufunc('argsort_inv', 2, 'int')
+
+        def elem(t):
+            p = P(xt, boxI_(t))
+            E.fact(z3.Implies(z3.And(t >= 0, t < m), z3.And(p >= 0, p < m, Q(xt, boxI_(p)) == t)))
+            return SV(p, 'int')
+
+        def inv(y):
+            q = Q(xt, boxI_(y))
+            E.fact(z3.Implies(z3.And(y >= 0, y < m), z3.And(q >= 0, q < m, P(xt, boxI_(q)) == y)))
+            return q
+        out = SeqV(length=m, elem=elem, inv=inv, mem=lambda y: z3.And(y >= 0, y < m), kind='array', esort='int')
+        out.perm = True
+        a_, b_ = z3.Int(fresh_name('pa')), z3.Int(fresh_name('pb'))
+        E.fact(z3.ForAll([a_, b_], z3.Implies(z3.And(a_ >= 0, a_ < b_, b_ < m),
+                                             E.as_int(x.elem(P(xt, boxI_(a_)))) <= E.as_int(x.elem(P(xt, boxI_(b_)))))))
+        return out
+    L['ndarray.argsort'] = nd_argsort
 
     def nd_copy(E, x, *a, **kw):
         return E.deepcopy(x)
